@@ -249,7 +249,11 @@ def run(chk) -> None:
         "comprehensions, modelled externals such as KDTree.query_pairs) gives the element type of every set-typed value; each construct that turns a "
         "set into a sequence (for, comprehension, list/tuple/next/enumerate/zip/join/itertools.*, keyed sorted/min/max, pop) is a source; it is accepted only "
         "if the element type is hash-stable (ints/floats/tuples of such); str, Enum, str-hashed or identity-hashed objects and unknown types are reported. "
-        "One named exception with a checked side condition (spec/exceptions.json)."
+        "Module-level constants are typed from their defining expression in their own module (frozenset('ACGU'), set algebra with a table), names bound by := and names reused for values of "
+        "different types are read through their reaching definitions, helpers nested in a function belong to it. One named exception with checked side conditions (spec/exceptions.json): the sort key "
+        "must contain both residues, and the order of the key components must be consistent with their equality - where it is not (Residue.__lt__ vs __eq__) the exception holds only under the input "
+        "assumption recorded there. Repeated calls: no method of the structure classes and no property anywhere in the package writes to state reachable from its receiver (effects engine), no "
+        "function mutates a module-level container."
     )
     chk.trusted = ["CPython: set iteration order is a function of the hashes and the insertion history", "scipy/pulp/pandas/mmcif internals are deterministic", "dict and OrderedSet preserve insertion order"]
     chk.assumptions = ["int/float/tuple-of-int hashes do not depend on PYTHONHASHSEED"]
